@@ -101,6 +101,8 @@ var errClasses = []struct {
 	{regexp.MustCompile(`include cycle detected`), "cycle"},
 	{regexp.MustCompile(`conflicts with imported resource`), "conflict"},
 	{regexp.MustCompile("`include` must be a list"), "notList"},
+	{regexp.MustCompile(`^(services|volumes|networks|secrets|configs) must be a mapping$`), "notMapping"},
+	{regexp.MustCompile(`failed to read .*env`), "envParse"},
 	{regexp.MustCompile(`is not a file`), "notFile"},
 	{regexp.MustCompile(`Couldn't find env file`), "envNotFound"},
 	{regexp.MustCompile(`is a directory`), "isDir"},
@@ -186,5 +188,35 @@ func RealApply(a ApplyArgs) any {
 	if err != nil {
 		return map[string]any{"err": ErrClass(err), "text": core.ScrubErr(err, root)}
 	}
-	return map[string]any{"ok": core.EncodeVal(SubstTree(model, root, Root))}
+	return map[string]any{"ok": core.EncodeVal(Unroot(model, root))}
+}
+
+// Unroot maps the temporary root back to "/ROOT" and its parent directory (reached by paths that climb out of
+// the tree with "..") to "/", which is where the same path lands in the model.
+func Unroot(v any, root string) any {
+	parent := root[:strings.LastIndexByte(root, '/')]
+	switch x := v.(type) {
+	case string:
+		x = subst(x, root, Root)
+		if x == parent {
+			return "/"
+		}
+		if strings.HasPrefix(x, parent+"/") {
+			return x[len(parent):]
+		}
+		return x
+	case []any:
+		l := make([]any, len(x))
+		for i, e := range x {
+			l[i] = Unroot(e, root)
+		}
+		return l
+	case map[string]any:
+		m := make(map[string]any, len(x))
+		for k, e := range x {
+			m[k] = Unroot(e, root)
+		}
+		return m
+	}
+	return v
 }
